@@ -28,7 +28,6 @@ import (
 )
 
 var rec *mon.Rec
-var dbgSteps, dbgDump []string
 
 // outstandingCap is the number of values a subscriber that does not read can
 // have outstanding before Broadcast blocks: the 10-slot buffer plus the one in
@@ -1640,7 +1639,6 @@ func runCase(t *testing.T, idx int, mode string) {
 	flag("hist.subscribe_parked_behind_blocked_broadcast", w.subscribeParked)
 	flag("hist.multi_broadcaster_overlap", overlap)
 	flag("hist."+mode, true)
-	dbgSteps, dbgDump = steps, w.dump()
 	rec.Case(idx, desc+" "+strings.Join(steps, ";"), deliveries > 0)
 	if rec.WantSample() && deliveries > 0 && idx%7 == 0 {
 		ev := w.dump()
